@@ -88,7 +88,11 @@ def entry_state(C, ctxkind, next_state, pstate, in_array, cbname):
     cell(S['current_value'][0] + lay.bbuf['bsize'][0], P, Int(P * 8, Aff.sym(vl)))
     cell(S['current_value'][0] + lay.bbuf['bptr'][0], P, Ptr('BUF', Aff.sym(vo)))
     adw = S['array_depth'][1] * 8
-    cell(S['array_depth'][0], S['array_depth'][1], Int(adw, Aff(0)) if not in_array else st.fresh_int('c14:ARRAY_DEPTH', adw, 1, 255))
+    if in_array is True:
+        adv = st.fresh_int('c14:ARRAY_DEPTH', adw, 1, 255)
+    else:
+        adv = Int(adw, Aff(int(in_array)))        # False -> 0; an integer -> exactly that array depth
+    cell(S['array_depth'][0], S['array_depth'][1], adv)
     # context object
     if ctxkind == 'print':
         st.add_region(Region('CTX', 'obj', Aff(1)))
@@ -176,6 +180,9 @@ def run(rep, tier):
                            sample={'combination': combo, 'emit_traces': [list(map(list, t[0])) for t in sorted(a)][:2], 'next_separator_state': sorted({t[1] for t in a})})
         need(ncombo >= 150, 'C14: only %d combinations evaluated' % ncombo)
         rep.coverage['combinations'] = ncombo
+        # ---- RENDER: separator structure of the text for bounded documents (extracted machines composed)
+        from props import c14m
+        c14m.render_clause(rep, mod, tier)
     rep.coverage.update({
         'rule': 'for each (token kind x separator state x in-array) the two callbacks, abstractly evaluated with everything else unconstrained, '
                 'emit the same sequence of (format string, argument provenance) and reach the same separator state',
@@ -183,5 +190,6 @@ def run(rep, tier):
         'explanation': 'sibling agreement of the two renderers by abstract evaluation; decides only the "print == to_string" clause',
         'exhaustive': True,
     })
-    rep.assumptions += ['faithfulness to the reference rendering (e.g. the missing comma after an empty nested object on the pinned tree) is '
-                        'a behavioural property of the separator machine over token histories and is NOT decided']
+    rep.assumptions += ['RENDER decides the separator structure ({"name":value,...} / [v,...], exactly one comma between siblings) for documents up to the stated '
+                        'bound; the conversion of each name and value (decimal, %f, hex digits, text up to a 0x00 byte) is libc printf applied to the '
+                        'provenance-checked arguments of the emit traces and is not re-decided']
